@@ -356,12 +356,33 @@ pub struct SeedBuilder {
     pub f: F,
     pub timers: Vec<TimerKey>,
     pub hist: Vec<HistStep>,
+    pub codec: FixCodec,
 }
 
 impl SeedBuilder {
     pub fn new(spec: &CoreSpec) -> Self {
         let (f, _) = spec.fresh();
-        SeedBuilder { f, timers: vec![], hist: vec![] }
+        SeedBuilder { f, timers: vec![], hist: vec![], codec: spec.codec }
+    }
+    /// A long-lived instance, second counter: complete probe rounds (probe
+    /// timer, the target's matching Ack, the indirect-stage timer) until the
+    /// 8-bit probe number reaches `target`.
+    pub fn age_probe_number(&mut self, target: u8) -> &mut Self {
+        for _ in 0..600 {
+            if self.f.verif_snapshot().probe_number == target {
+                break;
+            }
+            self.fire(|t| matches!(t, TimerKey::ProbeRandomMember(_)));
+            let s = self.f.verif_snapshot();
+            if let Some(m) = s.probe_target {
+                let me = *self.f.identity();
+                let ack = dgram(&self.codec, *m.id(), m.incarnation(), me, Message::Ack(s.probe_number), None, &[]);
+                self.ev(Ev::Data(ack));
+                self.fire(|t| matches!(t, TimerKey::SendIndirectProbe { .. }));
+            }
+        }
+        assert_eq!(self.f.verif_snapshot().probe_number, target, "seed: could not age the probe number");
+        self
     }
     pub fn ev(&mut self, ev: Ev) -> &mut Self {
         self.ev_with(ev, &[])
@@ -395,6 +416,27 @@ impl SeedBuilder {
     }
     pub fn view(&self) -> View {
         View::of(&self.f)
+    }
+    /// A long-lived instance: leave / drain every (now stale) timer / reuse,
+    /// until the 8-bit timer token reaches `target`. Odd targets end defunct,
+    /// even ones active. Counters near their wrap-around are start states no
+    /// short history reaches.
+    pub fn age_token(&mut self, target: u8) -> &mut Self {
+        for _ in 0..400 {
+            if self.f.verif_snapshot().timer_token == target {
+                break;
+            }
+            self.ev(Ev::Leave);
+            while let Some(t) = self.timers.first().copied() {
+                self.ev(Ev::Timer(t));
+            }
+            if self.f.verif_snapshot().timer_token == target {
+                break;
+            }
+            self.ev(Ev::Reuse);
+        }
+        assert_eq!(self.f.verif_snapshot().timer_token, target, "seed: could not age the timer token");
+        self
     }
     pub fn done(&self) -> Vec<HistStep> {
         self.hist.clone()
